@@ -777,6 +777,16 @@ def g_load_window(ctx):
     ctx.ob("_load does not write the window's fields directly", not direct, fi, direct[0] if direct else fi.node, construct=stmt_text(direct[0]) if direct else "_load: direct window stores")
 
 
+@R.clause("C13.h", "after an unclean stop nothing seen before the crash is accepted again: the recovered window starts exactly at the Echo-verified number (replay-window arithmetic, shared with C12.c)")
+def h_shared(ctx):
+    """The crash-recovery half of C13 rests on ReplayWindow.initialize_from_freshlyseen anchoring the window *at* the
+    number verified through the Echo exchange (index = seen, only that bit set), so that every lower number -- all
+    of which may have been accepted before the crash -- is outside the window.  An independently written breaking
+    change anchored the window `size-1` below it.  The obligations are those of C12.c."""
+    from . import c12
+    c12.c(ctx)
+
+
 F_ = "aiocoap/oscore.py"
 R.seed("C13.a", F_, "        if retval >= MAX_SEQNO:", "        if retval > MAX_SEQNO:", ">= -> > in the exhaustion test")
 R.seed("C13.a", F_, "MAX_SEQNO = 2**40 - 1", "MAX_SEQNO = 2**40", "limit one too high")
@@ -834,3 +844,5 @@ R.seed("C13.f", F_, "        self.sequence_number_persisted = self.sender_sequen
 
 R.seed("C13.g", F_, "                self.replay_window_persisted = True\n\n    # This is called internally", "                if not self.recipient_replay_window.is_initialized():\n                    self.recipient_replay_window.initialize_empty()\n                self.replay_window_persisted = True\n\n    # This is called internally", "all-null persisted window (clean stop while waiting for Echo) becomes an empty window")
 R.seed("C13.g", F_, "                # The replay window will stay uninitialized, which triggers\n                # Echo recovery\n                self.replay_window_persisted = False", "                self.recipient_replay_window.initialize_empty()\n                self.replay_window_persisted = False", "unknown state treated as nothing seen")
+
+R.seed("C13.h", F_, "        self._index = seen\n        self._bitfield = 1\n", "        self._index = max(seen - self._size + 1, 0)\n        self._bitfield = 1 << (seen - self._index)\n", "recovered window anchored below the Echo-verified number: pre-crash requests replayable")
